@@ -190,6 +190,7 @@ func (ex *Exec) funcModKeys(fn *ssa.Function, keys map[string]bool, seen map[*ss
 func (ex *Exec) contractModKeys(fc *FuncContract, callee *ssa.Function, sig *types.Signature, keys map[string]bool) {
 	keys["next"] = true
 	if !fc.HasMod {
+		keys["*"] = true
 		return
 	}
 	env := &SpecEnv{ex: ex, vars: map[string]Val{}, cur: newState(), pkg: ex.pkgByPath(fc.Pkg)}
